@@ -33,7 +33,7 @@ from .yp_generator import *
 import contextlib
 import click
 from antlr4.error.ErrorListener import ErrorListener
-from .errors import CompilerError, PrologSyntaxError
+from .errors import CompilerError, PrologSyntaxError, GeneratedCodeError
 
 class _RaisingErrorListener(ErrorListener):
     '''Turns the first lexer or parser error into an exception, instead of
@@ -66,6 +66,12 @@ def _compile_prolog_from_stream(inp, ctx):
     code = compiler.compile_program(program)
     generator = YPPythonCodeGenerator(ctx)
     pythoncode = generator.generate(code)
+    # every goal of a clause becomes a nested block, and Python limits the nesting
+    try:
+        compile(pythoncode, '<generated>', 'exec')
+    except (SyntaxError, RecursionError, MemoryError, ValueError) as e:
+        raise GeneratedCodeError(listener.filename,
+                f'clause too large or too deeply nested for Python ({e})') from e
     return pythoncode
 
 class CompilerContext:
